@@ -252,7 +252,7 @@ func h13d(n int) {
 	arcs := make([]int, n)
 	vals := make([]int64, n)
 	for i := 0; i < n; i++ {
-		arcs[i] = vp.IntRange("arc"+string(rune('0'+i)), 1, 20)
+		arcs[i] = vp.IntRange("arc"+string(rune('0'+i)), 0, 20)
 		vals[i] = vp.I64("val" + string(rune('0'+i)))
 		vp.Assume(vals[i] >= 0)
 		vp.Assume(vals[i] <= 255)
@@ -282,4 +282,42 @@ func h13d(n int) {
 		wantP = vp.IteI64(arcs[i] == 17, vals[i], wantP)
 	}
 	vp.Assert("pcesvn-slot", int64(tcb.PCESvn) == wantP)
+}
+
+// H10g (property C10): pcs.PckCertificateExtensions never panics, whatever the DER decodes to:
+// 18 TCB elements of which one (at three positions) carries an arbitrary last OID arc (negative and huge values
+// included) and a value of arbitrary dynamic type; octet strings of arbitrary length.
+func H10g_PckExtensions_ArbitraryDER() {
+	w := mkWorld13(perms[0], subPerms[vp.Choose("subOrder", 2)], vp.Choose("nested", 2) == 1, false)
+	sgxBlob := w.cert.Extensions[3].Value
+	g := vp.GhostGet(sgxBlob, "asn1").(*asn1Ghost)
+	var tcbG *asn1Ghost
+	for _, rv := range g.seq {
+		eg := vp.GhostGet(rv.FullBytes, "asn1").(*asn1Ghost)
+		if eg.isSeq {
+			tcbG = eg
+		}
+	}
+	innerG := vp.GhostGet(tcbG.seq[1].FullBytes, "asn1").(*asn1Ghost)
+	for k, pos := range []int{[]int{2, 16, 17}[vp.Choose("position", 3)]} {
+		eg := vp.GhostGet(innerG.seq[pos].FullBytes, "asn1").(*asn1Ghost)
+		arc := vp.Int("anyarc" + string(rune('0'+k)))
+		var val any
+		switch vp.Choose("valtype"+string(rune('0'+k)), 5) {
+		case 0:
+			val = vp.I64("anyval" + string(rune('0'+k)))
+		case 1:
+			val = vp.Bytes("anybytes"+string(rune('0'+k)), vp.IntRange("anybytes_len"+string(rune('0'+k)), 0, 20))
+		case 2:
+			val = "text"
+		case 3:
+			val = true
+		case 4:
+			val = nil
+		}
+		eg.atv = &pkix.AttributeTypeAndValue{Type: sgxOid(2, arc), Value: val}
+	}
+	_, err := PckCertificateExtensions(w.cert)
+	vp.Reach("returns-error", err != nil)
+	vp.Reach("returns-value", err == nil)
 }
